@@ -373,7 +373,7 @@ def gen_safe_spec(rng, unit_info, **kw):
     raise RuntimeError("could not draw a safe spec")
 
 
-SOURCE_POOL = [None, None, ["user data", None], ["Hardware reference database", "https://hardware-db.example.org/servers/web-frontend"],
+SOURCE_POOL = [None, None, "__none__", ["user data", None], ["Hardware reference database", "https://hardware-db.example.org/servers/web-frontend"],
                ["Hardware reference database", "https://hardware-db.example.org/servers/database"],
                ["Internal measurement", "https://wiki.example.org/measurements#2024"], ["Internal measurement", None],
                # names are free text: years and versions in parentheses, signs, brackets, dots
